@@ -13,14 +13,26 @@ removals in between; per event a tape-chosen subset of the phases is used at all
 no trigger returns a Deferred.  A hook (callable + arguments) whose earlier
 registration has run or was removed may be registered AGAIN with identical
 arguments, so that its handle compares equal to the earlier one; the model treats
-that as a fresh trigger instance.  Every trigger is one recording function; an
+that as a fresh trigger instance.  While its event is idle a hook may also be
+registered BESIDE a registration of the same hook that is still waiting to run
+(several equal registrations at once, in one phase or in different phases): each
+of them must run once, and removing through one of the equal handles removes ONE
+of them (the model gives no verdict on which one - see blockers()).  A raising
+trigger raises an ordinary Exception or, with a per-run probability, an exception
+outside the Exception hierarchy (harness-defined Stop, KeyboardInterrupt,
+SystemExit, asyncio.CancelledError); every call that can run triggers sits in an
+Escape block so that such an exception leaving the code under test is a violation
+and not the end of the worker process.  Every trigger is one recording function; an
 independent per-event model (three ordered lists + set of outstanding Deferreds)
 says, at the moment a trigger runs, whether it is the one that must run now.
 """
+import asyncio
 import os
 
 from twisted.internet import defer
 from twisted.internet.base import ReactorBase
+
+from detsim.sim import StepLimit, Violation
 
 ID = "C12"
 ENGINE = "tasks"
@@ -38,13 +50,24 @@ RULE = ("run = up to 20 registrations over before/during/after of 1-2 event type
         "tape-ordered firing (success or failure) of the returned Deferreds, 1-4 firings per event with registrations/removals in between; per event "
         "a tape-chosen subset of phases is populated (partly empty events), in a quarter of the runs no trigger returns a Deferred; with a per-run "
         "probability a registration re-uses the callable+arguments of an earlier registration of that event that has run or was removed (equal "
-        "handle, fresh trigger instance in the model), removals go through any handle that compares equal; non-trivial = an event waited on at "
+        "handle, fresh trigger instance in the model), removals go through any handle that compares equal; with a per-run probability (0/.25/.5) "
+        "a registration made while its event is idle repeats a hook that is STILL registered (several equal registrations at once, mostly in the "
+        "same phase, sometimes in another one), each must run once and a removal through one of the equal handles removes exactly one of them; "
+        "with a per-run probability (0/.3/.6) a raising trigger raises a non-Exception BaseException (harness Stop, KeyboardInterrupt, "
+        "SystemExit, asyncio.CancelledError) instead of an Exception, calls that run triggers are contained by Escape; non-trivial = an event waited on at "
         "least one unfired Deferred AND (a trigger raised, or a removal or registration happened during the firing)")
 ASSUMPTIONS = ["an event is not fired again while a firing of the same event is in progress",
                "triggers registered while their event is being fired get no ordering verdict for that firing (statement is silent); "
                "if they did not run they count as ordinary registered triggers for the next firing",
-               "at any moment at most one registered-and-not-yet-run trigger exists per (callable, arguments): identical hooks are registered "
-               "again only after the earlier registration ran or was removed, so an executing trigger is attributed unambiguously",
+               "while an event is being fired at most one registered-and-not-yet-run trigger of it exists per (callable, arguments) unless all of "
+               "them were registered before the firing began: a hook that is still registered is registered again only while its event is idle, "
+               "so no trigger 'registered during the firing' (no ordering verdict) is ever indistinguishable from one that has a verdict; an "
+               "executing hook with several registrations is attributed to the oldest registration of the earliest phase",
+               "removing through a handle that denotes several equal registrations (same phase, callable, arguments) removes exactly ONE of them; "
+               "the statement does not say which, so the vacated position gets no verdict (the real code vacates the oldest): the remaining "
+               "count must run, the order of the OTHER triggers relative to the remaining ones must be consistent with some choice",
+               "'an exception in one trigger' includes exceptions outside the Exception hierarchy (SystemExit, KeyboardInterrupt, "
+               "asyncio.CancelledError, application-defined BaseException subclasses): they neither leave fireSystemEvent nor stop the other triggers",
                "handles are values: removing through a handle that compares equal (==) to the handle of the registered instance removes that instance",
                "removing through a handle none of whose equal registrations is still registered: must raise only if none of them ever ran "
                "(IReactorCore documents the exception; removal of already-run triggers merely warns today)",
@@ -60,6 +83,36 @@ REREG_RAN_BEFORE_HOOK_IN_FIRING_P = float(os.environ.get("VERIF_C12_REREG_RAN_BE
 
 class Boom(Exception):
     pass
+
+
+class Stop(BaseException):
+    """A harness-defined exception outside the Exception hierarchy (an application's control-flow exception)."""
+
+
+# what a raising trigger raises: first the ordinary case, then the types that `except Exception` does not name
+EXC = {"Boom": Boom, "Stop": Stop, "KeyboardInterrupt": KeyboardInterrupt, "SystemExit": SystemExit, "CancelledError": asyncio.CancelledError}
+BARE = ("Stop", "KeyboardInterrupt", "SystemExit", "CancelledError")
+
+
+class Escape:
+    """`with Escape(sim, clause, witness):` around every call into the code under test that may run triggers: an exception of ANY
+    type raised by a trigger that leaves the call is the violation `clause` (sim.guard lets non-Exception exceptions pass, and a
+    leaked SystemExit would silently end the worker process).  The scenario's exceptions carry "trigger"/"pre"/"late" as first
+    argument; an untagged non-Exception exception is one of the runner's watchdogs and passes."""
+
+    def __init__(self, sim, clause, witness):
+        self.sim, self.clause, self.witness = sim, clause, witness
+
+    def __enter__(self):
+        return self
+
+    def __exit__(self, et, ev, tb):
+        if et is None or issubclass(et, (Violation, StepLimit)):
+            return False
+        if not issubclass(et, Exception) and not (ev.args and ev.args[0] in ("trigger", "pre", "late")):
+            return False
+        self.sim.check(self.clause, False, "%s:%s" % (self.witness, et.__name__), "%s%r escaped from the code under test" % (et.__name__, ev.args))
+        return False
 
 
 class MiniReactor(ReactorBase):
@@ -80,6 +133,8 @@ class EvModel:
         self.firing = False
         self.serial = 0
         self.pending = set()      # ids of unfired Deferreds returned by before-triggers in the current firing
+        self.excess = {}          # (hook key, phase) -> how many of that hook's listed registrations of that phase were removed
+        #                           without the model knowing WHICH of the equal registrations went (always < number listed)
 
 
 def run(sim):
@@ -90,28 +145,74 @@ def run(sim):
     rereg_p = sim.draw_choice([0.0, 0.3, 0.6], "rereg_p")      # share of registrations that re-use an earlier hook (callable + arguments)
     deferreds = not sim.draw_bool(0.25, "no_deferreds")        # False: no trigger of this run returns a Deferred
     churn = sim.draw_choice([1, 3], "churn")                   # weight of registrations between / during firings
+    dup_p = sim.draw_choice([0.0, 0.25, 0.5], "dup_p")         # share of idle-time registrations that repeat a hook that is still registered
+    bare_p = sim.draw_choice([0.0, 0.3, 0.6], "bare_p")        # share of raising triggers that raise a non-Exception BaseException
     allow_ran_before = REREG_RAN_BEFORE_HOOK_IN_FIRING_P > 0 and sim.draw_bool(REREG_RAN_BEFORE_HOOK_IN_FIRING_P, "allow_ran_before")
     sim.config = {"events": nev, "registrations": nreg, "phases": {ev: "+".join(masks[ev]) for ev in events}, "rereg_p": rereg_p,
-                  "deferreds": deferreds, "churn": churn}
+                  "deferreds": deferreds, "churn": churn, "dup_p": dup_p, "bare_p": bare_p}
     reactor = MiniReactor()
     model = {ev: EvModel() for ev in events}
     T = {}          # tid -> info (one per REGISTRATION = trigger instance)
     K = {}          # key -> {"ev", "kw", "insts": [tid, ...]}; the key is the argument the hook is registered with (hook identity)
-    live = {}       # key -> tid of the instance of that hook that is registered and has not run (at most one, see ASSUMPTIONS)
+    live = {}       # key -> [tid, ...] registrations of that hook that are listed in the model (registered, not run, not known to
+    #                 be removed), in registration order; more than one only through the equal-registrations family
     D = {}          # did -> (Deferred, ev)
     order = []      # observed execution log: (ev, serial, tid)
-    st = {"tid": 0, "did": 0, "depth": 0, "waited": 0, "raised": 0, "mid_change": 0}
+    st = {"tid": 0, "did": 0, "depth": 0, "waited": 0, "raised": 0, "mid_change": 0, "dups": 0, "dup_removed": 0, "bare": 0}
 
     def is_late(tid):
         info = T[tid]
         m = model[info["ev"]]
         return m.firing and info["late"] == m.serial
 
-    def first_tracked(m, phase):
+    def blockers(m, phase, upto=None, skip_late=True):
+        """The listed triggers of `phase` registered before `upto` (all of them if None) -> (blocking, phantom).  `blocking` must have run
+        before whatever comes after them may run.  `phantom`: where one of several equal registrations was removed, the statement
+        does not say which position is vacated, so as many of that hook's listed registrations as were removed (oldest first) do
+        not block: if something behind them runs first, they are the removed ones."""
+        budget = {g: n for g, n in m.excess.items() if g[1] == phase}
+        blocking, phantom = [], []
         for t in m.lists[phase]:
-            if not is_late(t):
-                return t
-        return None
+            if t == upto:
+                break
+            if skip_late and is_late(t):
+                continue
+            g = (T[t]["key"], phase)
+            if budget.get(g, 0) > 0:
+                budget[g] -= 1
+                phantom.append(t)
+            else:
+                blocking.append(t)
+        return blocking, phantom
+
+    def drop(tid):
+        """registration `tid` leaves the model lists (it runs, or it is known to be removed)"""
+        info = T[tid]
+        model[info["ev"]].lists[info["phase"]].remove(tid)
+        live[info["key"]].remove(tid)
+        if not live[info["key"]]:
+            del live[info["key"]]
+
+    def vacate(tid):
+        """listed registration `tid` turns out to be one of the removed equal registrations"""
+        info = T[tid]
+        m = model[info["ev"]]
+        g = (info["key"], info["phase"])
+        info["removed"] = True
+        drop(tid)
+        if m.excess.get(g, 0) > 1:
+            m.excess[g] -= 1
+        else:
+            m.excess.pop(g, None)
+
+    def settle(key, phase, m):
+        """if as many registrations of the hook are listed in `phase` as were removed, the listed ones ARE the removed ones"""
+        n = m.excess.get((key, phase), 0)
+        if n:
+            rest = [t for t in live.get(key, ()) if T[t]["phase"] == phase]
+            if len(rest) <= n:
+                for t in rest:
+                    vacate(t)
 
     def ran_before_in_this_firing(key, m):
         return m.firing and any(T[t]["phase"] == "before" and T[t]["ran_serial"] == m.serial for t in K[key]["insts"])
@@ -121,7 +222,17 @@ def run(sim):
         tid = st["tid"]
         m = model[ev]
         key = None
-        if rereg_p and sim.draw_bool(rereg_p, "rereg"):
+        dup = False
+        if dup_p and not m.firing and sim.draw_bool(dup_p, "dup"):
+            # the same hook once more while a registration of it is still waiting to run: several equal registrations at once.
+            # Only while the event is idle: none of several equal registrations is ever one "registered during the firing".
+            cands = [k for k in sorted(live) if K[k]["ev"] == ev]
+            if cands:
+                key = sim.draw_choice(cands, "key")
+                dup = True
+                if not sim.draw_bool(0.25, "other_phase"):
+                    phase = T[sim.draw_choice(live[key], "beside")]["phase"]
+        if key is None and rereg_p and sim.draw_bool(rereg_p, "rereg"):
             # the same hook again: same callable, same arguments -> a handle equal to the one of its earlier registration(s)
             cands = [k for k in sorted(K) if K[k]["ev"] == ev and k not in live]
             if cands:
@@ -136,16 +247,25 @@ def run(sim):
         if key is None:
             key = tid
             K[key] = {"ev": ev, "kw": sim.draw_bool(0.2, "kw"), "insts": []}
+        elif dup:
+            st["dups"] += 1
+            sim.probe("registered_hook_equal_to_a_waiting_registration")
+            sim.probe("equal_registrations_same_phase" if any(T[t]["phase"] == phase for t in live[key]) else "equal_registrations_other_phase")
         else:
             sim.probe("reregistered_identical_hook")
             prev = T[K[key]["insts"][-1]]
             sim.probe("reregistered_hook_that_ran" if prev["runs"] else "reregistered_hook_that_was_removed")
+        exc = ""
+        if beh == "raise":
+            exc = "Boom"
+            if bare_p and sim.draw_bool(bare_p, "bare"):
+                exc = sim.draw_choice(BARE, "exc")
         K[key]["insts"].append(tid)
-        live[key] = tid
-        info = {"key": key, "phase": phase, "ev": ev, "beh": beh, "runs": 0, "removed": False, "late": m.serial if m.firing else None,
+        live.setdefault(key, []).append(tid)
+        info = {"key": key, "phase": phase, "ev": ev, "beh": beh, "exc": exc, "runs": 0, "removed": False, "late": m.serial if m.firing else None,
                 "ran_serial": None, "ctx": ""}
         T[tid] = info
-        sim.event("add", by, tid, key, phase, ev, beh, "late" if m.firing else "")
+        sim.event("add", by, tid, key, phase, ev, beh + exc, "late" if m.firing else "")
         if m.firing:
             st["mid_change"] += 1
             sim.probe("registered_during_firing")
@@ -162,26 +282,33 @@ def run(sim):
         info = T[tid]
         key = info["key"]
         m = model[info["ev"]]
-        target = live.get(key)
-        if target is not None and target != tid and not (info["handle"] == T[target]["handle"]):
-            target = None       # e.g. the hook is now registered for another phase: this handle does not denote that registration
-        if target is not None:
-            # the handle denotes a registered trigger that has not run: removal must succeed and that trigger must never run
-            tinfo = T[target]
-            sim.event("remove", by, tid, "live", target)
-            if target != tid:
+        # the listed registrations this handle denotes: those whose handle compares equal (same hook, same phase)
+        group = [t for t in live.get(key, ()) if t == tid or info["handle"] == T[t]["handle"]]
+        if group:
+            # the handle denotes at least one registered trigger that has not run: removal must succeed, ONE of the registrations it
+            # denotes is gone and never runs, the others still run once each
+            phase = T[group[0]]["phase"]
+            g = (key, phase)
+            sim.event("remove", by, tid, "live", len(group), m.excess.get(g, 0))
+            if tid not in group:
                 sim.probe("removed_through_equal_handle_of_earlier_registration")
             if len(K[key]["insts"]) > 1:
                 sim.probe("reregistered_hook_removed")
-                if ran_before_in_this_firing(key, m) and tinfo["phase"] == "before":
-                    tinfo["ctx"] = ":equal-hook-ran-in-this-firing"
-            tinfo["removed"] = True
-            del live[key]
-            m.lists[tinfo["phase"]].remove(target)
+                if ran_before_in_this_firing(key, m) and phase == "before":
+                    for t in group:
+                        T[t]["ctx"] = ":equal-hook-ran-in-this-firing"
+            if len(group) > 1:
+                st["dup_removed"] += 1
+                sim.probe("removed_one_of_several_equal_registrations")
+                m.excess[g] = m.excess.get(g, 0) + 1
+                settle(key, phase, m)
+            else:
+                T[group[0]]["removed"] = True
+                drop(group[0])
             if m.firing:
                 st["mid_change"] += 1
                 sim.probe("removed_during_firing")
-            with sim.guard("remove-raised", tinfo["phase"] + (":firing" if m.firing else ":idle")):
+            with sim.guard("remove-raised", phase + (":firing" if m.firing else ":idle") + (":equal-registrations" if len(group) > 1 else "")):
                 reactor.removeSystemEventTrigger(info["handle"])
             return
         # no registered trigger behind this handle; "already-removed" only if NO registration with an equal handle ever ran
@@ -205,8 +332,13 @@ def run(sim):
         # `tid` is the hook's argument (its key); the instance that runs is the registered one of that hook - if there is none, the
         # newest registration of the hook is what ran again / ran although removed
         key = tid
-        tid = live.pop(key, None)
-        if tid is None:
+        if key in live:
+            # several equal registrations: the phases run in order and each phase in registration order, so what runs is the oldest
+            # one of the earliest phase (registrations of one hook are listed several times only if none was registered during a firing)
+            tid = min(live[key], key=lambda t: (PHASES.index(T[t]["phase"]), t))
+            if len(live[key]) > 1:
+                sim.probe("one_of_several_equal_registrations_ran")
+        else:
             tid = K[key]["insts"][-1]
         info = T[tid]
         ev, phase, beh = info["ev"], info["phase"], info["beh"]
@@ -220,35 +352,45 @@ def run(sim):
         sim.check("removed-never-runs", not info["removed"], phase + info["ctx"],
                   "trigger %d (registration %d of hook %d) ran after it was removed" % (tid, len(K[key]["insts"]), key))
         sim.check("runs-only-when-fired", m.firing, phase, "trigger %d of %s ran although %s is not being fired" % (tid, ev, ev))
+        listed = tid in m.lists[phase]
+        vacated = []
         if not late:
-            if phase == "before":
-                sim.check("registration-order", first_tracked(m, "before") == tid, "before",
-                          lambda: "before-trigger %d ran, oldest remaining is %r" % (tid, first_tracked(m, "before")))
-            else:
-                sim.check("before-first", first_tracked(m, "before") is None, phase,
-                          lambda: "%s-trigger %d ran while before-trigger %r had not run" % (phase, tid, first_tracked(m, "before")))
+            if phase != "before":
+                sim.check("before-first", not blockers(m, "before")[0], phase,
+                          lambda: "%s-trigger %d ran while before-trigger %r had not run" % (phase, tid, blockers(m, "before")[0][0]))
                 sim.check("waits-for-deferreds", not m.pending, phase,
                           lambda: "%s-trigger %d ran while before-Deferreds %r are unfired" % (phase, tid, sorted(m.pending)))
                 if phase == "after":
-                    sim.check("during-before-after", first_tracked(m, "during") is None, "after",
-                              lambda: "after-trigger %d ran while during-trigger %r had not run" % (tid, first_tracked(m, "during")))
-                sim.check("registration-order", first_tracked(m, phase) == tid, phase,
-                          lambda: "%s-trigger %d ran, oldest remaining is %r" % (phase, tid, first_tracked(m, phase)))
-        elif tid in m.lists[phase]:
+                    sim.check("during-before-after", not blockers(m, "during")[0], "after",
+                              lambda: "after-trigger %d ran while during-trigger %r had not run" % (tid, blockers(m, "during")[0][0]))
+            if listed:
+                ahead, vacated = blockers(m, phase, tid)
+                sim.check("registration-order", not ahead, phase, lambda: "%s-trigger %d ran, oldest remaining is %r" % (phase, tid, ahead[0]))
+            # (not listed: it ran again or ran although removed - reported above)
+        elif listed:
             # a trigger registered while this firing was under way: the statement does not say whether it takes part in this
             # firing, but if it does it is still subject to "in registration order": it must not overtake a trigger of its
             # phase that was registered before it and has not run yet
             sim.probe("late_trigger_ran_in_same_firing")
-            ahead = m.lists[phase][:m.lists[phase].index(tid)]
+            ahead, vacated = blockers(m, phase, tid, skip_late=False)
             sim.check("registration-order", not ahead, phase + ":registered-during-firing",
                       lambda: "%s-trigger %d (registered during this firing) ran before earlier-registered %s-trigger(s) %r" % (phase, tid, phase, ahead))
-        if tid in m.lists[phase]:
-            m.lists[phase].remove(tid)
+        if listed:
+            for t in vacated:
+                # equal registrations ahead of this trigger, as many as were removed: those are the ones that went
+                sim.probe("removed_equal_registration_resolved_by_order")
+                vacate(t)
+            drop(tid)
+            settle(key, phase, m)
         # ---- behaviour
         if beh == "raise":
             st["raised"] += 1
             sim.fault("trigger_raised")
-            raise Boom("trigger", tid)
+            if info["exc"] in BARE:
+                st["bare"] += 1
+                sim.fault("trigger_raised_non_Exception")
+                sim.probe("trigger_raised_" + info["exc"])
+            raise EXC[info["exc"]]("trigger", tid)
         if beh == "remover":
             cands = sorted(t for t in T if T[t]["ev"] == ev and t != tid)
             if cands:
@@ -282,7 +424,7 @@ def run(sim):
 
     def completion(ev):
         m = model[ev]
-        left = [t for ph in PHASES for t in m.lists[ph] if not is_late(t)]
+        left = [t for ph in PHASES for t in blockers(m, ph)[0]]
         sim.check("all-ran", not left, "complete",
                   lambda: "firing of %s is complete but triggers %r (%s) never ran" % (ev, left, ",".join(T[t]["phase"] for t in left)))
         m.firing = False
@@ -303,7 +445,7 @@ def run(sim):
             sim.probe("fired_with_empty_phase")
             if filled == ["before"]:
                 sim.probe("fired_with_before_triggers_only")
-        with sim.guard("fire-raised", "fireSystemEvent"):
+        with Escape(sim, "fire-raised", "fireSystemEvent"):
             reactor.fireSystemEvent(ev)
         if m.pending:
             st["waited"] += 1
@@ -327,9 +469,9 @@ def run(sim):
         cands = sorted(T)
         if cands:
             # mostly live targets; sometimes an already removed / already run one
-            live = [t for t in cands if not T[t]["removed"] and T[t]["runs"] == 0]
-            if live and sim.draw_bool(0.8, "live"):
-                remove(sim.draw_choice(live, "target"), "caller")
+            waiting = [t for t in cands if not T[t]["removed"] and T[t]["runs"] == 0]
+            if waiting and sim.draw_bool(0.8, "live"):
+                remove(sim.draw_choice(waiting, "target"), "caller")
             else:
                 remove(sim.draw_choice(cands, "target"), "caller")
 
@@ -341,7 +483,7 @@ def run(sim):
         sim.event("deferred", did, "ok" if ok else "fail")
         was_pending = did in m.pending
         m.pending.discard(did)
-        with sim.guard("deferred-fire-raised", phase):
+        with Escape(sim, "deferred-fire-raised", phase):
             if ok:
                 d.callback(("late", did))
             else:
@@ -415,7 +557,16 @@ MUTANTS = [
     "base.py _continueFiring: 'self.state = \"BASE\"; self.finishedBefore = []' deleted (state of the previous firing kept): CAUGHT (removed-never-runs:before)",
     "base.py _continueFiring: 'if not self.during: return' (after-triggers of an event without during-triggers never run): CAUGHT (all-ran)",
     "base.py addTrigger: a hook equal to an entry of the last finishedBefore is silently not registered: CAUGHT (remove-raised, registration-order)",
-    "FINDING on the unchanged tree (precondition avoided unless VERIF_C12_REREG_RAN_BEFORE_P>0): while an event is being fired (before-loop running "
+    "base.py removeTrigger_BASE: list.remove -> rebuild the list without anything equal to the removed trigger (seeded r5a): CAUGHT "
+    "(registration-order:before, all-ran, remove-raised:<phase>:idle:equal-registrations:ValueError) - needs several equal registrations at once",
+    "base.py removeTrigger_BEFORE: self.before.remove(...) -> filter out every equal pending before-trigger: CAUGHT (registration-order:before, "
+    "all-ran:complete, remove-raised:before:firing:equal-registrations:ValueError)",
+    "base.py addTrigger: a trigger equal to one already listed in the phase is not appended: CAUGHT (remove-raised:...:equal-registrations, registration-order)",
+    "base.py removeTrigger_BASE: removes the NEWEST equal registration instead of the oldest: holds (by design: no verdict on which equal registration goes)",
+    "base.py fireEvent/_continueFiring: 'with _systemEventHandler' -> try/except Exception (seeded r5b): CAUGHT (fire-raised:fireSystemEvent:Stop/"
+    "SystemExit/KeyboardInterrupt/CancelledError, all-ran:complete) - needs triggers raising non-Exception BaseExceptions",
+    "base.py _continueFiring only: during/after trigger call under try/except Exception: CAUGHT (all-ran:complete)",
+    "FINDING (since repaired in /repo by 9377ebd; precondition avoided unless VERIF_C12_REREG_RAN_BEFORE_P>0): while an event is being fired (before-loop running "
     "or waiting for before-Deferreds) a before-hook identical to one that already ran in this firing is registered again and removed through its "
     "handle: removeTrigger_BEFORE finds the value in finishedBefore, only warns, the trigger stays registered and runs (same or next firing): "
     "C12:removed-never-runs:before:equal-hook-ran-in-this-firing",
